@@ -3,6 +3,8 @@
 mod dep_run;
 mod front;
 mod heap_run;
+mod mirsem;
+mod opt_kernels;
 mod rng;
 mod server_run;
 mod srcsem;
@@ -20,6 +22,8 @@ fn main() {
     "dep-run" => dep_run::main(rest),
     "front" => front::main(rest),
     "heap-run" => heap_run::main(rest),
+    "mir-run" => mirsem::main(rest),
+    "opt-kernels" => opt_kernels::main(rest),
     "server-run" => server_run::main(rest),
     "src-run" => srcsem::main(rest),
     "std-dump" => std_dump::main(rest),
